@@ -126,6 +126,30 @@ fn gen(seed: u64, idx: u64, _t: Tier) -> J {
 	let mut tries = 0;
 	// Stage 1: one translator, one call per document (like several input files).
 	let mut calls = vec![];
+	// One stream in twelve starts with a document whose stage-1 output is EXACTLY 8192*k bytes
+	// (the second stage reads through 8 KiB buffers, libyaml through 16 KiB ones): the
+	// look-ahead that detection captured then ends exactly where a consumer's read ends.
+	let mut exact = false;
+	if f != Fmt::Toml && r.chance(1, 12) {
+		let target = 8192 * r.range(1, 4);
+		let mut pad = target.saturating_sub(24);
+		for _ in 0..6 {
+			let v = V::M(vec![(V::S("p".into()), V::S("x".repeat(pad)))]);
+			let Some(b) = gen::render(&v, a, &mut r, false) else { break };
+			let alone: Vec<u8> = if a == Fmt::Yaml { [b"---\n".as_slice(), &b, b"\n"].concat() } else { b };
+			let (v1, out) = exec::t0(&alone, Some(a), f);
+			if !v1.is_ok() {
+				break;
+			}
+			if out.len() == target {
+				calls.push(Call::slice(alone, Some(a)));
+				made += 1;
+				exact = true;
+				break;
+			}
+			pad = (pad + target).saturating_sub(out.len());
+		}
+	}
 	while made < n && tries < 4 * n + 4 {
 		tries += 1;
 		let (v, sp, em) = doc(&mut r, &cfg, f == Fmt::Toml);
@@ -172,7 +196,20 @@ fn gen(seed: u64, idx: u64, _t: Tier) -> J {
 			list.push(sz);
 		}
 	}
-	let sched = if r.chance(1, 8) { gen::gen_sched(&mut r, stage1_out.len()) } else { Sched { list, cycle: false } };
+	let sched = if exact && r.chance(2, 3) {
+		// pipes deliver what fits: whole buffers, pages, or just under a page
+		match r.below(5) {
+			0 => Sched::whole(),
+			1 => Sched::bytes(8192),
+			2 => Sched::bytes(4096),
+			3 => Sched::bytes(4094),
+			_ => Sched::bytes(16384),
+		}
+	} else if r.chance(1, 8) {
+		gen::gen_sched(&mut r, stage1_out.len())
+	} else {
+		Sched { list, cycle: false }
+	};
 	let to = *r.pick(&ALL_FMTS);
 	let mut sc = Scenario::new(to, vec![Call::reader(stage1_out, None, sched)]);
 	set_param(&mut sc, "F", json!(f.name()));
@@ -180,6 +217,7 @@ fn gen(seed: u64, idx: u64, _t: Tier) -> J {
 	set_param(&mut sc, "special_first_key", json!(special));
 	set_param(&mut sc, "empty_collection", json!(empty));
 	set_param(&mut sc, "writes", json!(boundaries.len()));
+	set_param(&mut sc, "exact_first", json!(exact));
 	sc.to_json()
 }
 
@@ -222,6 +260,7 @@ fn eval(case: &J) -> Eval {
 		}
 	}
 	ev.count("multi_doc", u64::from(sc.param_i("docs").unwrap_or(0) > 1));
+	ev.count("first_doc_output_exactly_8k_multiple", u64::from(sc.params.get("exact_first").and_then(J::as_bool).unwrap_or(false)));
 	ev.count("first_key.special", u64::from(sc.params.get("special_first_key").and_then(J::as_bool).unwrap_or(false)));
 	ev.count("empty_collection", u64::from(sc.params.get("empty_collection").and_then(J::as_bool).unwrap_or(false)));
 	let writes = sc.param_i("writes").unwrap_or(0) as usize;
